@@ -199,3 +199,10 @@ b("graddrop-vectorised-leak-along-columns", ["C18"], A + "graddrop.py", _GD_LOOP
   "the leak vector is broadcast along the rows: entry (i, j) is leaked with leak_j (and the shapes only agree for square matrices)")
 b("graddrop-vectorised-kept-entries-leaked", ["C18"], A + "graddrop.py", _GD_LOOP, _GD_VEC.replace("(row_leak + (1 - row_leak) * M)", "(row_leak + (1 - row_leak) * M * row_leak)"),
   "kept entries weigh leak_i + (1 - leak_i)·leak_i instead of 1")
+
+
+# PCGrad over a precomputed schedule of (i, j) pairs (see seeded_keep/C18-r5K2): two broken twins of that form, kept as patches
+import os as _os
+_PD = _os.path.join(_os.path.dirname(_os.path.abspath(__file__)), "patches")
+b("pcgrad-schedule-transposed-update", ["C18"], "@seed", _os.path.join(_PD, "pcgrad-schedule-transposed-update.diff"), "", "the update hits W[j, i]: the weight of row i in the projected vector of row j")
+b("pcgrad-schedule-self-not-skipped", ["C18"], "@seed", _os.path.join(_PD, "pcgrad-schedule-self-not-skipped.diff"), "", "the schedule no longer leaves out j == i")
